@@ -86,6 +86,7 @@ void CPCA(tensor *x, int scaling, size_t npc, CPCAMODEL *model)
   size_t j;
   size_t k;
   size_t pc;
+  size_t niter;
   matrix *T_T;
   matrix *T;
   matrix *Eb_T;
@@ -233,6 +234,7 @@ void CPCA(tensor *x, int scaling, size_t npc, CPCAMODEL *model)
       t->data[i] = Eb->m[best_block_id]->data[i][best_colvar_id];
     }
 
+    niter = 0;
     while(1){ /* loop until convergence of t */
       for(k = 0; k < Eb->order; k++){
         NewDVector(&p_b, Eb->m[k]->col);
@@ -277,7 +279,8 @@ void CPCA(tensor *x, int scaling, size_t npc, CPCAMODEL *model)
       if(libsci_verif_tick_hook != NULL)
         libsci_verif_tick_hook(2, pc, calcConvergence(t_new, t));
       #endif
-      if(calcConvergence(t_new, t) < CPCACONVERGENCE){
+      niter++;
+      if(calcConvergence(t_new, t) < CPCACONVERGENCE || niter >= CPCAMAXITER){
         #ifdef DEBUG
         printf("new score calculated\n");
         printf("pc: %zu\n", pc);
